@@ -16,6 +16,15 @@ FAMILIES = {
         'thorough': dict(consts=dict(N=12, MaxKids=4, MinHi=0, AllowStar=True, Axes={'ctc'}, MaxCtc=2, CtcDepth=1, CtcBinOps=LOGIC_BIN,
                                      CtcMinFeatures=8), invariants=tlc.GEN_INVARIANTS, simulate=dict(num=3000, depth=12)),
     },
+    # one or two relations over 20 to 100 leaf children: counts beyond 2^31, judged on decimal digit sequences (FMBig)
+    'WideLeaves': {
+        'quick':    dict(module='FMWide', defaults=False, invariants=['TypeOK'],
+                         consts=dict(Ns={33, 57, 64, 100}, Cards={'or', 'alt', 'mutex', '2to5', 'all', 'any', 'star2', 'half'},
+                                     Seconds={'none', 'or20', 'mutex64'})),
+        'thorough': dict(module='FMWide', defaults=False, invariants=['TypeOK'],
+                         consts=dict(Ns={20, 31, 32, 33, 52, 53, 57, 63, 64, 65, 100, 128}, Cards={'or', 'alt', 'mutex', '2to5', 'all', 'any', 'star2', 'half'},
+                                     Seconds={'none', 'opt', 'or20', 'alt33', 'mutex64'})),
+    },
     # wide groups: up to 7 children in one relation, at most two relations
     'Wide': {
         'quick':    dict(consts=dict(N=8, MaxKids=7, MinHi=0, MaxLevel=3), invariants=tlc.GEN_INVARIANTS, cap=2500),
